@@ -94,7 +94,9 @@ def resetTopics (c : Cache) (topics : List String) : Cache := topics.foldl reset
 def resetGroup (c : Cache) (group : String) : Cache := { c with groups := erase group c.groups }
 
 /-- `reset_all_metadata()` -/
-def resetAll (c : Cache) : Cache := { c with t2b := [], topicParts := [], topicErrs := [], groups := [] }
+def resetAll (c : Cache) : Cache :=
+  { c with t2b := [], topicParts := [], topicErrs := [], groups := [],
+           partMeta := if clientResetAllClearsPartMeta then [] else c.partMeta }
 
 /-- `_update_brokers` with `brokers_by_id` already built.  Returns the new cache and the broker
     clients popped from `clients` and handed to `_close_brokerclients` (set order in Python: compared sorted). -/
@@ -152,8 +154,29 @@ inductive Raised where
   | typeError
   deriving DecidableEq, Repr
 
+/-- The rest of a `_handle_responses` pass once the first error is remembered (`fail_on_error=True`, fix
+    55f24eb): the remaining responses are still examined - each stale-routing answer resets - and then
+    `first` is raised.  (A `TypeError` of `reset_consumer_group_metadata(None)`, or - without the catch-all
+    handler - an error code no handler names, still propagates at once.) -/
+def examineRest (group : Option String) (first : Raised) : Cache → List (String × Int) → Cache × Option Raised
+  | c, [] => (c, some first)
+  | c, (topic, err) :: rest =>
+    if err == 0 then examineRest group first c rest
+    else if clientTopicResetErrnos.contains err then examineRest group first (resetTopic c topic) rest
+    else if clientGroupResetErrnos.contains err then
+      match group with
+      | none => (c, some .typeError)
+      | some g => examineRest group first (resetGroup c g) rest
+    else if !clientHandleCatchAll then (c, some (.errno err))
+    else examineRest group first c rest
+
+/-- what happens after the first error with `fail_on_error=True`: read from the source
+    (`clientHandleExaminesAll`): examine the rest, or (before 55f24eb) raise at once -/
+def afterFirst (group : Option String) (first : Raised) (c : Cache) (rest : List (String × Int)) : Cache × Option Raised :=
+  if clientHandleExaminesAll then examineRest group first c rest else (c, some first)
+
 /-- What `_handle_responses` does for the responses in order: what is raised (if anything) and the
-    cache after the resets performed up to there. `(topic, error)` per response. -/
+    cache after the resets performed. `(topic, error)` per response. -/
 def handleResponses (c : Cache) (failOnError : Bool) (group : Option String) :
     List (String × Int) → Cache × Option Raised
   | [] => (c, none)
@@ -161,14 +184,15 @@ def handleResponses (c : Cache) (failOnError : Bool) (group : Option String) :
     if err == 0 then handleResponses c failOnError group rest
     else if clientTopicResetErrnos.contains err then
       let c' := resetTopic c topic
-      if failOnError then (c', some (.errno err)) else handleResponses c' failOnError group rest
+      if failOnError then afterFirst group (.errno err) c' rest else handleResponses c' failOnError group rest
     else if clientGroupResetErrnos.contains err then
       match group with
       | none => (c, some .typeError)
       | some g =>
         let c' := resetGroup c g
-        if failOnError then (c', some (.errno err)) else handleResponses c' failOnError group rest
-    else if failOnError || !clientHandleCatchAll then (c, some (.errno err))
+        if failOnError then afterFirst group (.errno err) c' rest else handleResponses c' failOnError group rest
+    else if failOnError || !clientHandleCatchAll then
+      (if clientHandleCatchAll then afterFirst group (.errno err) c rest else (c, some (.errno err)))
     else handleResponses c failOnError group rest
 
 /-! ## routing kernels of `_send_broker_aware_request` -/
